@@ -129,3 +129,8 @@ package note
 //@   pure
 //@   ensures (err == nil) == (denom >= 1 && num >= 1)
 //@   ensures v.Num == num && v.Denom == denom
+
+//@ define nameText(n) ite(n == C, "C", ite(n == D, "D", ite(n == E, "E", ite(n == F, "F", ite(n == G, "G", ite(n == A, "A", ite(n == B, "B", "")))))))
+//@ func Name.String returns (s)
+//@   pure
+//@   ensures s == nameText(n)
